@@ -288,8 +288,15 @@ func (c *channelInstance) verifyAndDecrypt(m *MessageChunk, r []byte) ([]byte, e
 		b = append(b[:headerLength], p...)
 	}
 
-	signature := b[len(b)-c.algo.RemoteSignatureLength():]
-	messageToVerify := b[:len(b)-c.algo.RemoteSignatureLength()]
+	// a chunk that cannot even hold the headers and a signature is not a
+	// secured chunk: reject it instead of slicing out of range
+	signatureLength := c.algo.RemoteSignatureLength()
+	if len(b) < headerLength+signatureLength {
+		return nil, ua.StatusBadSecurityChecksFailed
+	}
+
+	signature := b[len(b)-signatureLength:]
+	messageToVerify := b[:len(b)-signatureLength]
 
 	if err := c.algo.VerifySignature(messageToVerify, signature); err != nil {
 		return nil, ua.StatusBadSecurityChecksFailed
@@ -304,6 +311,10 @@ func (c *channelInstance) verifyAndDecrypt(m *MessageChunk, r []byte) ([]byte, e
 			paddingLength += 1
 		}
 		paddingLength += 1
+	}
+
+	if paddingLength > len(messageToVerify)-headerLength {
+		return nil, ua.StatusBadSecurityChecksFailed
 	}
 
 	b = messageToVerify[headerLength : len(messageToVerify)-paddingLength]
